@@ -213,10 +213,14 @@ pub fn spec(check: &str, tier: &str) -> Option<CheckSpec> {
             for (i, lp) in fam::limit_crash_programs().into_iter().enumerate() {
                 js.push(Job { id: format!("C06-limits-{}", i), check: "C06".into(), tier: tier.into(), program: lp, cfg: cfg.clone(), extra: serde_json::json!({"mode": "limits"}) });
             }
+            for which in 0..crate::statics::CUSTOM_C06 as u64 {
+                let program = Program { name: format!("CUSTOM-drop-waits-{}", which), objs: Objs { atomics: vec![which, 6], ..Default::default() }, threads: vec![vec![]] };
+                js.push(Job { id: format!("C06-custom-{}", which), check: "C06".into(), tier: tier.into(), program, cfg: cfg.clone(), extra: serde_json::json!({"mode": "custom", "which": which}) });
+            }
             Some(CheckSpec {
                 id: "C06",
                 level: "fault_enumeration",
-                rule: "base programs (evenly spaced members of LOCK, WAIT, CHAN, ARC, A-sc + sentinels) x every crash point: a panic inserted at every (thread, position), unconditionally and conditionally on each possible value of the preceding schedule-dependent result (so the failing iteration is first, middle or last); plus the base programs themselves (including ones that deadlock); after every run a sentinel model runs in the same process; non-trivial = the reference can reach the crash point",
+                rule: "base programs (evenly spaced members of LOCK, WAIT, CHAN, ARC, A-sc + sentinels) x every crash point: a panic inserted at every (thread, position), unconditionally and conditionally on each possible value of the preceding schedule-dependent result (so the failing iteration is first, middle or last); plus the base programs themselves (including ones that deadlock); after every run a sentinel model runs in the same process; hand-written models in which a destructor that runs during the unwind waits for another thread (yield, park, spin lock), run in a child process under a watchdog; non-trivial = the reference can reach the crash point",
                 assumptions: vec!["SC machine decides whether a crash point is reachable", "a fresh child process gives the sentinel's reference sequence"],
                 wall_cap: wall,
                 jobs: js,
@@ -353,6 +357,22 @@ pub fn spec(check: &str, tier: &str) -> Option<CheckSpec> {
                     }
                 }
             }
+            // the same pairs with a run bound: max_permutations is examined every
+            // checkpoint_interval iterations - counted from the start of *this* run
+            {
+                let mut cb = cfg.clone();
+                cb.max_permutations = Some(4);
+                cb.checkpoint_interval = Some(3);
+                let few: Vec<&Program> = progs.iter().step_by((progs.len() / 5).max(1)).take(5).collect();
+                for (i, p) in few.iter().enumerate() {
+                    for (j, q) in few.iter().enumerate() {
+                        js.push(Job { id: format!("C16-pairb-{}-{}", i, j), check: "C16".into(), tier: tier.into(), program: (*p).clone(), cfg: cb.clone(), extra: serde_json::json!({"mode": "pair", "other": q}) });
+                        if i < j {
+                            js.push(Job { id: format!("C16-concb-{}-{}", i, j), check: "C16".into(), tier: tier.into(), program: (*p).clone(), cfg: cb.clone(), extra: serde_json::json!({"mode": "concurrent", "other": q}) });
+                        }
+                    }
+                }
+            }
             for which in 0..3u64 {
                 let program = Program { name: format!("CUSTOM-failing-init-{}", which), objs: Objs { atomics: vec![which], ..Default::default() }, threads: vec![vec![]] };
                 js.push(Job { id: format!("C16-custom-{}", which), check: "C16".into(), tier: tier.into(), program, cfg: cfg.clone(), extra: serde_json::json!({"mode": "custom", "which": which}) });
@@ -363,7 +383,7 @@ pub fn spec(check: &str, tier: &str) -> Option<CheckSpec> {
             Some(CheckSpec {
                 id: "C16",
                 level: "model_checking",
-                rule: "K diverse programs (atomics, locks, condvar, Notify, park, channels, arcs, leaks, deadlocks): all ordered pairs back to back in one process, all unordered pairs on two OS threads, and every iteration of every program replayed alone in a fresh process from the checkpoint stored before it; prelude invariance: an independent racing prelude in front of a program, the decision sub-tree explored after it must be the same under every order of the prelude; non-trivial = >= 2 iterations",
+                rule: "K diverse programs (atomics, locks, condvar, Notify, park, channels, arcs, leaks, deadlocks): all ordered pairs back to back in one process, all unordered pairs on two OS threads, and every iteration of every program replayed alone in a fresh process from the checkpoint stored before it; the same pairs with max_permutations and a checkpoint interval; prelude invariance: an independent racing prelude in front of a program, the decision sub-tree explored after it must be the same under every order of the prelude; non-trivial = >= 2 iterations",
                 assumptions: vec!["a fresh child process is the reference for 'no earlier model ran'", "quick tier replays about 12 evenly spaced iterations per program in isolation, thorough all"],
                 wall_cap: Duration::from_secs(if tier == "quick" { 60 } else { 600 }),
                 jobs: js,
